@@ -182,4 +182,46 @@ theorem normPrefix_append_slash {p : Bytes} (h : p.getLast? ≠ some cSlash) :
 theorem normPrefix_eq_self {p : Bytes} (h : p.getLast? ≠ some cSlash) : normPrefix p = p := by
   rw [normPrefix, trimSlashes_eq_self h]
 
+/-- `List.mapM` in `Option`: fails iff one element fails; otherwise the result lists the images in order. -/
+theorem mapM_option_spec {α β : Type} (f : α → Option β) (ss : List α) :
+    (ss.mapM f = none ↔ ∃ s ∈ ss, f s = none) ∧
+    (∀ qs, ss.mapM f = some qs →
+      qs.length = ss.length ∧ ∀ i (h : i < ss.length) (h' : i < qs.length), f ss[i] = some qs[i]) := by
+  induction ss with
+  | nil => simp
+  | cons a t ih =>
+    obtain ⟨ih1, ih2⟩ := ih
+    cases ha : f a with
+    | none =>
+      constructor
+      · simp [List.mapM_cons, ha]
+      · intro qs h; simp [List.mapM_cons, ha] at h
+    | some pa =>
+      cases ht : t.mapM f with
+      | none =>
+        constructor
+        · simp only [List.mapM_cons, ha, ht]
+          simp only [List.mem_cons, exists_eq_or_imp, ha]
+          simpa using ih1.mp ht
+        · intro qs h; simp [List.mapM_cons, ha, ht] at h
+      | some v =>
+        obtain ⟨hl, hi⟩ := ih2 v ht
+        constructor
+        · simp only [List.mapM_cons, ha, ht]
+          constructor
+          · intro h; simp at h
+          · rintro ⟨s, hs, hp⟩
+            rcases List.mem_cons.mp hs with rfl | hs
+            · simp [ha] at hp
+            · have := ih1.mpr ⟨s, hs, hp⟩
+              simp [ht] at this
+        · intro qs h
+          simp [List.mapM_cons, ha, ht] at h
+          subst h
+          refine ⟨by simp [hl], ?_⟩
+          intro i h1 h2
+          cases i with
+          | zero => simpa using ha
+          | succ j => simpa using hi j (by simpa using h1) (by simpa using h2)
+
 end Grog
